@@ -57,20 +57,8 @@ void family( std::string const& tname, int step, int bq = 2, int bt = 3 )
         if ( !supported ) continue;
         g_scen.push_back( make_scenario<A>( base, p, SetCfg( int( p.threads.size()), 3 ), step <= 6 ? 0 : 1, p.threads.size() > 2 ? 2 : bq, p.threads.size() > 2 ? 2 : bt ));
     }
-    if ( Caps::has_unlink::value ) {
-        // unlink( item ) of the intrusive API: removes exactly that item. INS_F inserts items with another identity than the prefix items
-        add_set_programs<A>( g_scen, base, set_grammar( { UNLINK, INS_F, DEL }, { 1, 2 }, 2, "u" ), 2, 3, step, bq, bt );
-        auto P = [&]( std::string name, TProg pre, std::vector<TProg> th ) {
-            Program p; p.name = name; p.prefix = pre; p.threads = th;
-            g_scen.push_back( make_scenario<A>( base, p, SetCfg( int( th.size()), 3 ), 0, th.size() > 2 ? 2 : bq, th.size() > 2 ? 2 : bt ));
-        };
-        P( "unlink-vs-ins-next", { { INS, 1, 0 }, { INS, 3, 0 } }, { { { UNLINK, 1, 0 }, { HAS, 1, 0 } }, { { INS, 2, 0 }, { HAS, 1, 0 } } } );
-        P( "unlink-vs-del-next", { { INS, 1, 0 }, { INS, 2, 0 } }, { { { UNLINK, 1, 0 }, { HAS, 2, 0 } }, { { DEL, 2, 0 }, { HAS, 1, 0 } } } );
-        P( "unlink-vs-unlink", { { INS, 1, 0 }, { INS, 2, 0 } }, { { { UNLINK, 1, 0 }, { UNLINK, 2, 0 } }, { { UNLINK, 2, 0 }, { UNLINK, 1, 0 } } } );
-        P( "unlink-vs-replace", { { INS, 1, 0 } }, { { { UNLINK, 1, 0 }, { FIND_F, 1, 0 } }, { { DEL, 1, 0 }, { INS_F, 1, 17 } } } );
-        P( "unlink-vs-extract", { { INS, 1, 0 }, { INS, 2, 0 } }, { { { UNLINK, 1, 0 } }, { { EXTRACT, 1, 0 }, { GET, 2, 0 } } } );
-        P( "3t-unlink-ins-ins", { { INS, 2, 0 } }, { { { UNLINK, 2, 0 } }, { { INS, 1, 0 } }, { { INS, 3, 0 }, { HAS, 2, 0 } } } );
-    }
+    if ( Caps::has_unlink::value )
+        add_unlink_programs<A>( g_scen, base, { 0, 1, 2, 3 }, std::vector<int>(), step, bq, bt );
 }
 
 #if FAMILY == 1
